@@ -292,6 +292,13 @@ deriving Repr
 	if err != nil {
 		return "", fmt.Errorf("SafeNode LIVENESS condition %q: %v", g.ExprText(live.Cond), err)
 	}
+	if live.Init != nil { // `if a, b := x, y; cond`
+		lets, err := unTr.InitLets(live.Init, "")
+		if err != nil {
+			return "", fmt.Errorf("SafeNode LIVENESS branch: %v", err)
+		}
+		ue = "(" + strings.ReplaceAll(strings.TrimSpace(lets), "\n", "; ") + "; " + ue + ")"
+	}
 	fmt.Fprintf(&b, "/-- the condition of SafeNode's last accepting branch (LIVENESS): `%s` -/\ndef safeNodeUnlock (lock msgHigh : View) : Bool := %s\n", g.ExprText(live.Cond), ue)
 	fmt.Fprintf(&b, "def src_SafeNode_liveness : String := %q\n", g.ExprText(live.Cond))
 	var accSrc []string
